@@ -634,6 +634,9 @@ class FormulaManager(object):
 
         if width is None:
             raise PysmtValueError("Need to specify a width for the constant")
+        if width <= 0:
+            raise PysmtValueError("The width of a bit-vector must be positive, " \
+                                  "got %s" % str(width))
 
         if is_pysmt_integer(value):
             _value = cast(int, value) #TODO: this is incorrect, we should define a custom "Integer" type including mpz. Try with IntegerClass from constants
